@@ -123,7 +123,8 @@ def si_kernel(dev, J_edge):
     A0 = xi * Bc2
     K0 = 4 * xi * Bc2 / (sc.mu_0 * lam**2 / d)
     Jsite = mesh.get_quantity_on_site(J_edge)  # dimensionless sheet current on sites
-    r = np.sqrt(((mesh.edge_mesh.centers[:, None, :] - mesh.sites[None, :, :]) ** 2).sum(axis=2)) * xi
+    centers = 0.5 * (mesh.sites[mesh.edge_mesh.edges[:, 0]] + mesh.sites[mesh.edge_mesh.edges[:, 1]])  # from the sites, not from the mesh's own list of edge centres
+    r = np.sqrt(((centers[:, None, :] - mesh.sites[None, :, :]) ** 2).sum(axis=2)) * xi
     a = mesh.areas * xi**2
     A = sc.mu_0 / (4 * np.pi) * np.einsum("jk,j,ij->ik", K0 * Jsite, a, 1 / r)
     return A / A0
@@ -142,6 +143,9 @@ def run_cases(ctx, with_model=True, stop_first=False):
     # a small step size with the default drag: the heavy-ball velocity is then ~ step/drag times the residual, so an exit
     # test on the change of the iterate (instead of on kernel(iterate) - iterate) would stop 25 times too early
     cfgs.append(dict(dev="ring", tol=1e-3, a=0.02, b=0.5, B=0.5))
+    # the device moved in place AFTER it was meshed (a sample scanned under a fixed source): the kernel is evaluated where the
+    # edges are now
+    cfgs.append(dict(dev="ring", tol=1e-3, a=0.3, b=0.6, B=0.5, moved=(7.0, -3.0)))
     # a thermalisation stage first: the state it ends with is recorded as frame 0 and must be as self-consistent as any other
     cfgs.append(dict(dev="bar_hole", tol=1e-4, a=0.3, b=0.7, B=0.5, cur={"source": 3.0, "drain": -3.0}, skip=0.03))
     if not ctx.quick:
@@ -164,8 +168,11 @@ def run_cases(ctx, with_model=True, stop_first=False):
         else:
             ukw = dict(length_units=cfg["units"], scale={"nm": 1000.0, "mm": 1e-3}[cfg["units"]]) if cfg.get("units") else {}
             dev = zoo.make_device(cfg["dev"], ctx.rng, max_edge_length=1.0, lam=0.4, d=0.1, **ukw)  # small Lambda: strong screening
+        if cfg.get("moved") and not cfg["reuse"]:
+            dev.translate(dx=cfg["moved"][0] * dev.layer.coherence_length, dy=cfg["moved"][1] * dev.layer.coherence_length, inplace=True)
+            ctx.count("solves_on_a_device_translated_in_place_after_meshing")
         prev = dev
-        out = os.path.join(str(ctx.work), f"c13_{cfg['dev']}_{cfg['tol']}_{int(cfg['reuse'])}_{cfg.get('units', 'um')}.h5")
+        out = os.path.join(str(ctx.work), f"c13_{cfg['dev']}_{cfg['tol']}_{int(cfg['reuse'])}_{cfg.get('units', 'um')}_{int(bool(cfg.get('moved')))}.h5")
         if os.path.exists(out):
             os.remove(out)
         opts = runs.options(solve_time=0.1, dt_init=1e-2, save_every=2, output_file=out, include_screening=True, screening_tolerance=cfg["tol"],
